@@ -176,6 +176,15 @@ def run(ck: Check) -> None:
         ck.count("spec:" + ",".join(sorted(want)))
         if "E ArgError" not in want:
             ck.nontrivial_add(r.case.group)
+        if "OK" not in want and "E ArgError" not in want and r.case.group % 2 == 0:
+            # the same offer when the verifier's diagnostics cannot be printed (stdout full / closed): still not accepted
+            from .. import impl
+            for mode in ("broken:full", "broken:closed"):
+                ck.evaluations += 1
+                if impl.run_case("vroot", [t, u], mode) == "OK":
+                    ck.violation("offered root accepted, when the diagnostics could not be printed, although it is not (version+1 and signed per both root rules)",
+                                 {"trusted": proto.enc(t)[:1500], "offered": proto.enc(u)[:1500], "stdout": mode, "spec": sorted(want)}, f"root:OK-broken-stdout:{r.case.tag}")
+                    break
         if r.impl not in want:
             if r.impl == "OK":
                 clause = "offered root accepted although it is not (version+1 and signed per both the trusted root's and its own root rule)"
